@@ -418,6 +418,32 @@ def check_case(case):
         if not any((interpret(case, x, sid)["depth"] or 0) for x in recs):
             decidable = False  # no depth anywhere: the depth filter is skipped with a warning
         got_h = [(r.chromosome, int(r.start)) for r in hets.data.itertuples(index=False)]
+        # A record that is non-reference in the tumour and reference in its paired normal is tumour-only: never a
+        # germline-het record, and not part of the documented "no het at all -> every record" fallback either (seeded
+        # change C18j kept such records when *every* surviving record was tumour-only)
+        # (not when the genotype-less-normal workaround may apply: every record that survives the SOMATIC-flag and depth
+        # filters has a reference or missing normal genotype, so the library infers genotypes from frequencies instead)
+        # (a record whose depth is missing may or may not pass the depth filter: only certain survivors count)
+        surv = [r for r in recs if not r["som"] and (not case["het_min_depth"] or (interpret(case, r, germ)["depth"] is not None
+                                                     and interpret(case, r, germ)["depth"] >= case["het_min_depth"]))]
+        workaround = case["zyg_freq"] is None and not any(zyg(r["g"][gi]["gt"]) not in (0.0, None) for r in surv)
+        if decidable and nid is not None and not workaround:
+            zf = case["zyg_freq"]
+            for r in recs:
+                key = (case["contigs"][r["c"]], r["pos"] - 1)
+                t, g = interpret(case, r, sid), interpret(case, r, nid)
+                if key in either_keys or not (t["complete"] and g["complete"]):
+                    continue
+                if zf is None:
+                    tz, nz = t["zyg"], g["zyg"]
+                else:
+                    if min(abs(f - b) for f in (t["freq"], g["freq"]) for b in (zf, 1 - zf)) < 1e-12:
+                        continue
+                    tz, nz = (0.0 if t["freq"] < zf else 0.5), (0.0 if g["freq"] < zf else 0.5)
+                if tz != 0.0 and nz == 0.0 and key in got_h:
+                    bad("hets:tumour-only", f"load_het_snps kept {key}, non-reference in the tumour {sid} and reference in the normal {nid} "
+                                            f"(zygosity_freq={zf})")
+                    break
         if decidable and exp_keys:
             a = [k for k in got_h if k not in either_keys]
             if a != exp_keys:
